@@ -7,6 +7,7 @@ import (
 	"math/rand"
 	"os"
 	"sort"
+	"strings"
 	"time"
 
 	"github.com/MinterTeam/minter-go-node/coreV2/types"
@@ -317,6 +318,13 @@ func (s *Sim) RunBlock(req *BlockReq, metas []TxMeta, src TxSource) *BlockRes {
 		s.Dead = true
 		s.Metas = metas
 		s.Report(Violation{Property: "C07", Rule: "panic", Site: pi.Call + ":" + pi.Site, Detail: firstLine(pi.Value), Height: req.Height, TxIndex: txi})
+		// the node's own last-line defences firing are observations for the value properties too
+		if strings.Contains(pi.Value, "negative balance") {
+			s.Report(Violation{Property: "C02", Rule: "negative", Site: "balance-at-commit", Detail: firstLine(pi.Value), Height: req.Height, TxIndex: txi})
+		}
+		if strings.Contains(pi.Value, "invariants error") {
+			s.Report(Violation{Property: "C01", Rule: "node-checker", Site: "invariants-error-at-commit", Detail: firstLine(pi.Value), Height: req.Height, TxIndex: txi})
+		}
 		for _, m := range s.Mons {
 			if pm, ok := m.(PanicObserver); ok {
 				pm.OnPanic(s, req, pi, txi)
